@@ -641,6 +641,22 @@ def dict_method(I, st, ref, h, name, args, kwargs, node):
             else:
                 out += raise_(s, KeyError, args[0], node=node)
         return out
+    if name == "items":
+        # some duplicate-free enumeration of the (key, value) pairs; `pos` maps every key to its position (Skolem witness).
+        # Recorded in st.ghost["dict_items"] as (dict ref, SSeq, pos function) for loop invariants.
+        from .values import fresh_sseq
+        it = fresh_sseq("items", (h.kk, h.vk))
+        pos = z3.Function(fresh_name("items_pos"), KIND_SORT[h.kk], z3.IntSort())
+        j = z3.Int(fresh_name("j"))
+        kq = z3.Const(fresh_name("kq"), KIND_SORT[h.kk])
+        K, V = it.arr
+        st.assume(it.n == h.size, it.n >= 0)
+        st.assume(z3.ForAll([j], z3.Implies(z3.And(0 <= j, j < it.n), z3.And(z3.Select(h.dom, z3.Select(K, j)), z3.Select(V, j) == z3.Select(h.val, z3.Select(K, j)),
+                                                                          pos(z3.Select(K, j)) == j))))
+        st.assume(z3.ForAll([kq], z3.Implies(z3.Select(h.dom, kq), z3.And(0 <= pos(kq), pos(kq) < it.n, z3.Select(K, pos(kq)) == kq))))
+        st.ghost = dict(st.ghost)
+        st.ghost["dict_items"] = list(st.ghost.get("dict_items", [])) + [(ref, it, pos)]
+        return [(st, st.alloc(HIter(it, 0)))]
     if name == "__iter__" or name == "keys":
         # some enumeration of the keys: a fresh sequence all of whose elements are keys
         from .values import fresh_sseq
